@@ -293,6 +293,36 @@ def r05j(ctx, rep, rule="R05j"):
             rep.ok(rule, key, "%s builds its result without mutators" % name)
 
 
+def r05k(ctx, rep, rule="R05k"):
+    """code emitted for a constructor does not mutate a half-built object across an evaluation"""
+    facts = ctx["facts"]
+    rep.rule(rule, "results are assembled after their parts have been evaluated: where the compiler emits, in one loop, the code that "
+             "evaluates the parts of a template and a mutating opcode (VPUSH) that adds each part to the object under "
+             "construction, a continuation captured while a part is evaluated holds that object; re-entering it pushes onto "
+             "the result an earlier return already handed out. Lists are built the safe way (all parts on the stack, then CONS).")
+    n = 0
+    for p, f in sorted(facts.fns.items()):
+        if not p.startswith(COMPILE) or "{closure" in p:
+            continue
+        for src, h in f.back_edges():
+            body = (f.reach_from(h) & f.reach_back(src)) | {h, src}
+            vp = [st for bb in body for st in f.blocks[bb]["stmts"] if st["rv"]["k"] == "agg" and (st["rv"].get("adt") or "").endswith("opcode::OpCode")
+                  and st["rv"].get("variant") == "VPushAcc"]
+            ev = [t for bb, t in f.calls() if bb in body and (callee(t) or "").startswith(COMPILE + "compile_")]
+            if not vp:
+                continue
+            n += 1
+            key = "%s|%s|vpush-between-evaluations" % (rule, f.short.rsplit("::", 1)[-1])
+            if ev:
+                rep.fail(rule, key, "%s emits VPUSH inside the loop that also compiles the element expressions: the vector is mutated "
+                         "between the evaluations of its elements, so a continuation captured in one element and re-entered after "
+                         "the form has returned pushes onto the vector that was already returned" % f.short, [vp[0]["loc"]])
+            else:
+                rep.ok(rule, key, "%s emits VPUSH only after the elements have been evaluated" % f.short, [vp[0]["loc"]])
+    if n == 0:
+        rep.ok(rule, rule + "|none", "the compiler emits no VPUSH in a loop", nontrivial=False)
+
+
 def run(ctx, rep):
     r05a(ctx, rep)
     r05b(ctx, rep)
@@ -303,6 +333,7 @@ def run(ctx, rep):
     r05e(ctx, rep)
     r05g(ctx, rep)
     r05j(ctx, rep)
+    r05k(ctx, rep)
     # R05i: nothing but the sweeper frees a cell (a captured continuation refers to environments the running code has left)
     from . import C03 as _C03
     sub = type(rep)(rep.prop)
